@@ -15,6 +15,7 @@ fn main() {
         "C06" => hdmc::poolmc::run(&args, "C06"),
         "C14" => hdmc::poolmc::run(&args, "C14"),
         "C15" => hdmc::poolmc::run(&args, "C15"),
+        "C01" => hdmc::schedmc::c01::run(&args),
         "C07" => hdmc::schedmc::c07::run(&args),
         "C09" => hdmc::schedmc::c09::run(&args),
         "C08" => hdmc::props::iomc::run_c08(&args),
